@@ -1,6 +1,7 @@
 """C08 — clone reports: verbatim copies are found and every reported pair is justified."""
 import json
 import os
+import shutil
 
 import lib
 import clonecommon as cc
@@ -23,7 +24,7 @@ def toml_for(cfg):
     return "\n".join(lines) + "\n"
 
 
-def choose_cfg(rng, probe):
+def choose_cfg(rng, probe, max_frags=45):
     """A configuration accepted by Validate, with boundaries taken from what the probe run observed."""
     sims = [c["sim"] for c in probe["table"]]
     t = cc.rand_thresholds(rng, sims)
@@ -33,6 +34,11 @@ def choose_cfg(rng, probe):
     min_lines = max(1, f["lines"] + rng.choice([0, 0, 1, -1])) if k < 0.6 else rng.choice([3, 4, 5, 6, 8])
     f = rng.choice(frs)
     min_nodes = max(1, f["size"] + rng.choice([0, 0, 1, -1])) if rng.random() < 0.6 else rng.choice([4, 6, 8, 10])
+    if max_frags < 40:      # quick tier: the probe (min 4 lines / 6 nodes) must see every fragment the run will extract
+        min_lines, min_nodes = max(min_lines, 4), max(min_nodes, 6)
+    # keep the fragment set small enough for the O(n^2) similarity table (both orientations, classifier gate)
+    while sum(1 for x in frs if x["lines"] >= min_lines and x["size"] >= min_nodes) > max_frags:
+        min_lines, min_nodes = min_lines + 1, min_nodes + 1
     pool = [s for s in sims if s > 0.2] or [0.7]
     sim_thr = rng.choice([0.0, t[3], t[2], rng.choice(pool), min(1.0, rng.choice(pool) + 2.0 ** -40), 0.65, 0.9, 1.0])
     k = rng.random()
@@ -61,12 +67,213 @@ def loc_of(c):
     return (l["file_path"], l["start_line"], l["end_line"])
 
 
+EPS40 = 2.0 ** -40
+
+# cost models: what the CLI uses (service.createDetectorConfig: "python", no boilerplate discount, classifier gate when
+# enable_dfa) and the other models of NewCloneDetector
+COST_VARIANTS = {
+    "cli": dict(CostModelType="python", ReduceBoilerplateSimilarity=False, BoilerplateMultiplier=0, EnableDFAAnalysis=True, SkipDocstrings=False),
+    "cli-nodfa": dict(CostModelType="python", ReduceBoilerplateSimilarity=False, BoilerplateMultiplier=0, EnableDFAAnalysis=False, SkipDocstrings=False),
+    "python-boilerplate": dict(CostModelType="python", ReduceBoilerplateSimilarity=True, BoilerplateMultiplier=0.1, EnableDFAAnalysis=False),
+    "python-ignore": dict(CostModelType="python", IgnoreLiterals=True, IgnoreIdentifiers=True, EnableDFAAnalysis=False),
+    "default": dict(CostModelType="default", EnableDFAAnalysis=False),
+    "weighted": dict(CostModelType="weighted", EnableDFAAnalysis=False),
+}
+
+
+def floc(f):
+    return "%s:%d-%d" % (f["file"], f["start"], f["end"])
+
+
+def check_similarity_hypotheses(ck, res, replay, what=""):
+    """The Section hypotheses of Props/C08.v on every fragment pair of a driver result (table 'full')."""
+    frags = res["frags"]
+    table = {(c["i"], c["j"]): c for c in res["table"]}
+    for (i, j), c in table.items():
+        o = table.get((j, i))
+        if o and (o["sim"] != c["sim"] or o["dist"] != c["dist"] or o["gate"] != c["gate"]):
+            ck.n_asym = getattr(ck, "n_asym", 0) + 1
+            if ck.n_asym > 6:       # enough concrete witnesses in one run
+                return False
+            ck.violation("similarity depends on which fragment comes first%s: sim(%s, %s) = %r dist %r gate %s, but sim(%s, %s) = %r dist %r gate %s"
+                         % (what, floc(frags[i]), floc(frags[j]), c["sim"], c["dist"], c["gate"], floc(frags[j]), floc(frags[i]), o["sim"], o["dist"], o["gate"]),
+                         dict(replay, frag_a=frags[i], frag_b=frags[j], sim_ab=c["sim"], sim_ba=o["sim"]))
+            return False
+        if not (0.0 <= c["sim"] <= 1.0):
+            ck.violation("similarity %r outside [0,1]" % c["sim"], dict(replay, frag_a=frags[i], frag_b=frags[j]))
+            return False
+        if frags[i]["tree"] == frags[j]["tree"] and (c["sim"] != 1.0 or c["dist"] != 0.0 or not c["gate"] or
+                                                     frags[i]["size"] != frags[j]["size"] or frags[i]["feats"] != frags[j]["feats"]):
+            ck.violation("equal trees but similarity %r distance %r gate %s sizes %d/%d" % (c["sim"], c["dist"], c["gate"], frags[i]["size"], frags[j]["size"]),
+                         dict(replay, frag_a=frags[i], frag_b=frags[j]))
+            return False
+    return True
+
+
+def band_flip_configs(s, full):
+    """Threshold settings accepted by Validate that sit ON the observed similarity s (and 2^-40 next to it):
+    'band': the Type-2 edge is at s and Type-3 is not enabled (the default enabled set), so a pair with a slightly lower
+    similarity in the other orientation is dropped; 'report': the reporting threshold is at s."""
+    out = []
+    for eps in ((0.0, EPS40, -EPS40) if full else (0.0,)):
+        t = s + eps
+        if not (0.2 < t < 1.0):
+            continue
+        out.append(("band%+d" % (0 if eps == 0 else (1 if eps > 0 else -1)),
+                    dict(type1=max(0.98, (1.0 + t) / 2), type2=t, type3=t - 0.04, type4=t - 0.08, sim_thr=t - 0.08, enabled=[1, 2, 4])))
+        out.append(("report%+d" % (0 if eps == 0 else (1 if eps > 0 else -1)),
+                    dict(type1=0.99, type2=0.98, type3=0.97, type4=0.05, sim_thr=t, enabled=[1, 2, 3, 4])))
+    return out
+
+
+def pairset(res):
+    out = set()
+    for p in res["detect"]:
+        a, b = res["frags"][p["i"]], res["frags"][p["j"]]
+        out.add((tuple(sorted([floc(a), floc(b)])), p["sim"], p["dist"], p["type"]))
+    return out
+
+
+def twin_section(ck, rng, thorough, stats, base):
+    """Related-construct twins (clonecommon.TWIN_KINDS): symmetry of the similarity under every cost model and order
+    invariance of the detector and of the CLI with thresholds on the observed similarities."""
+    related = cc.related_pairs_from_source(lib.REPO)
+    if related is None:
+        ck.broken_ties.append("relatedPairs table of PythonCostModel.areRelatedNodeTypes not found in apted_cost.go")
+        related = list(cc.RELATED_TO_KIND)
+    mixes = []
+    for pr in related:
+        k = cc.RELATED_TO_KIND.get(tuple(pr)) or cc.RELATED_TO_KIND.get(tuple(reversed(pr)))
+        if k is None:
+            ck.broken_ties.append("areRelatedNodeTypes lists %s which the twin library does not cover" % (pr,))
+        else:
+            mixes.append([k])
+    mixes += [["with", "for"], ["setlist"], ["setcomp"], ["whilefor"]]
+    if thorough:
+        mixes = mixes * 3 + [list(m) for m in cc.TWIN_MIXES] * 2
+    variants = list(COST_VARIANTS)
+    twins = []
+    for ti, kinds in enumerate(mixes):
+        texts, meta = cc.gen_twins(rng, kinds)
+        vs = variants if thorough else ["cli", variants[1 + ti % (len(variants) - 1)]]
+        twins.append(dict(texts=texts, meta=meta, variants=vs))
+    stats["twin_projects"] = len(twins)
+    stats["twin_kinds"] = sorted({k for t in twins for k in t["meta"]["kinds"]})
+    # ---- phase 1: similarities in both orientations under each cost model
+    lenient = dict(MinLines=5, MinNodes=8, Type1Threshold=0.99, Type2Threshold=0.98, Type3Threshold=0.97, Type4Threshold=0.05,
+                   SimilarityThreshold=0.05, MaxEditDistance=0)
+    reqs, idx = [], []
+    for ti, t in enumerate(twins):
+        m = t["meta"]
+        files = [(m["a"], t["texts"][m["a"]]), (m["b"], t["texts"][m["b"]])]
+        for v in t["variants"]:
+            reqs.append(cc.driver_req(files, dict(lenient, **COST_VARIANTS[v]), table="full"))
+            idx.append((ti, v))
+    res1 = [cc.norm(x) for x in lib.driver(reqs, timeout=900)]
+    sims = {}
+    for (ti, v), res in zip(idx, res1):
+        t = twins[ti]
+        m = t["meta"]
+        replay = {"kind": "twins", "files": t["texts"], "twin": m, "cost_model": v, "detector_config": dict(lenient, **COST_VARIANTS[v])}
+        if "error" in res:
+            ck.broken_ties.append("driver failed on twins %s: %s" % (m["kinds"], res["error"]))
+            continue
+        if res.get("parse_errors"):
+            ck.broken_ties.append("twin source does not parse: %s %s" % (m["kinds"], res["parse_errors"]))
+            continue
+        stats["twin_symmetry_cells"] = stats.get("twin_symmetry_cells", 0) + len(res["table"])
+        ok = check_similarity_hypotheses(ck, res, replay, " (twins %s, cost model %s)" % ("+".join(m["kinds"]), v))
+        top = {f["file"]: i for i, f in enumerate(res["frags"]) if f["start"] == m["start"]}
+        if len(top) == 2:
+            c = {(x["i"], x["j"]): x for x in res["table"]}
+            sims[(ti, v)] = (c[(top[m["a"]], top[m["b"]])]["sim"], c[(top[m["b"]], top[m["a"]])]["sim"], ok)
+            stats.setdefault("twin_sims", []).append(round(sims[(ti, v)][0], 4))
+    # ---- phase 2 (detector): thresholds on the observed similarities, both file orders
+    reqs, idx = [], []
+    for (ti, v), (sab, sba, ok) in sims.items():
+        t = twins[ti]
+        m = t["meta"]
+        fa, fb = (m["a"], t["texts"][m["a"]]), (m["b"], t["texts"][m["b"]])
+        for name, c in band_flip_configs(max(sab, sba), True):
+            cfg = dict(lenient, Type1Threshold=c["type1"], Type2Threshold=c["type2"], Type3Threshold=c["type3"], Type4Threshold=c["type4"],
+                       SimilarityThreshold=c["sim_thr"], **COST_VARIANTS[v])
+            reqs.append(cc.driver_req([fa, fb], cfg, table="none"))
+            reqs.append(cc.driver_req([fb, fa], cfg, table="none"))
+            idx.append((ti, v, name, cfg))
+    res2 = [cc.norm(x) for x in lib.driver(reqs, timeout=900)] if reqs else []
+    for k, (ti, v, name, cfg) in enumerate(idx):
+        ra, rb = res2[2 * k], res2[2 * k + 1]
+        if "error" in ra or "error" in rb:
+            ck.broken_ties.append("driver failed on twins: %s" % (ra.get("error") or rb.get("error")))
+            continue
+        stats["twin_order_runs"] = stats.get("twin_order_runs", 0) + 1
+        pa, pb = pairset(ra), pairset(rb)
+        if pa != pb and not [1 for w, _ in ck.violations if "twins" in w and twins[ti]["meta"]["a"] in w and v in w]:
+            m = twins[ti]["meta"]
+            ck.violation("the set of detected pairs depends on the file order (twins %s, cost model %s, thresholds %s on the observed similarity): "
+                         "order [%s, %s] gives %s, order [%s, %s] gives %s" % ("+".join(m["kinds"]), v, name, m["a"], m["b"], sorted(pa)[:3], m["b"], m["a"], sorted(pb)[:3]),
+                         {"kind": "twins-order", "files": twins[ti]["texts"], "twin": m, "cost_model": v, "detector_config": cfg,
+                          "order_a": [m["a"], m["b"]], "pairs_a": sorted(pa), "order_b": [m["b"], m["a"]], "pairs_b": sorted(pb)})
+    # ---- phase 3 (command line): the same with pyscn analyze, file order given by the argument order
+    cli_runs = []
+    for ti, t in enumerate(twins):
+        key = (ti, "cli")
+        if key not in sims:
+            continue
+        sab, sba, ok = sims[key]
+        m = t["meta"]
+        cfgs = band_flip_configs(max(sab, sba), thorough)
+        if not thorough:
+            cfgs = cfgs[ti % 2: ti % 2 + 1]
+        # the built-in defaults spelled out (type1 0.85, type2 0.75, type3 0.70, type4 0.65, Type-3 not enabled)
+        cfgs = cfgs + [("defaults", dict(type1=0.85, type2=0.75, type3=0.70, type4=0.65, sim_thr=0.65, enabled=[1, 2, 4], min_lines=10, min_nodes=20))]
+        for name, c in cfgs:
+            d = os.path.join(base, "tw%d_%s" % (ti, name.replace("+", "p").replace("-", "m")))
+            for p, txt in t["texts"].items():
+                os.makedirs(os.path.dirname(os.path.join(d, p)), exist_ok=True)
+                with open(os.path.join(d, p), "w") as f:
+                    f.write(txt)
+            toml = toml_for(dict(min_lines=c.get("min_lines", 5), min_nodes=c.get("min_nodes", 8), similarity_threshold=c["sim_thr"],
+                                 type1_threshold=c["type1"], type2_threshold=c["type2"], type3_threshold=c["type3"], type4_threshold=c["type4"],
+                                 min_similarity=0.0, max_similarity=1.0, enabled=c["enabled"], enable_dfa=True, lsh_enabled="false", lsh=None))
+            with open(os.path.join(d, ".pyscn.toml"), "w") as f:
+                f.write(toml)
+            got = []
+            for order in ([m["a"], m["b"]], [m["b"], m["a"]]):
+                rep = os.path.join(d, ".pyscn", "reports")
+                shutil.rmtree(rep, ignore_errors=True)
+                rc, out, err = lib.pyscn(["analyze", "--json", "--no-open", "--select", "clones"] + order, d)
+                data = None
+                if os.path.isdir(rep):
+                    fs = sorted(f for f in os.listdir(rep) if f.endswith(".json"))
+                    if fs:
+                        data = json.load(open(os.path.join(rep, fs[-1])))
+                if data is None or not data.get("clone"):
+                    ck.broken_ties.append("pyscn analyze produced no clone report for twins in %s (rc=%s): %s" % (d, rc, (err or "")[-200:]))
+                    got = None
+                    break
+                if data["clone"]["request"]["paths"] != order:
+                    ck.notes.append("pyscn analyze did not keep the argument order %s: %s" % (order, data["clone"]["request"]["paths"]))
+                got.append({(tuple(sorted([loc_of(p["clone1"]), loc_of(p["clone2"])])), p["similarity"], p["distance"], p["type"])
+                            for p in (data["clone"]["clone_pairs"] or [])})
+            if not got:
+                continue
+            stats["twin_cli_runs"] = stats.get("twin_cli_runs", 0) + 2
+            stats["twin_cli_pairs"] = stats.get("twin_cli_pairs", 0) + len(got[0])
+            if got[0] != got[1]:
+                ck.violation("pyscn analyze reports different clone pairs for the two file orders of a fragment and its related-construct twin "
+                             "(%s x%d, thresholds %s): `%s %s` gives %s, `%s %s` gives %s" % (
+                                 "+".join(m["kinds"]), m["occ"], name, m["a"], m["b"], sorted(got[0])[:3], m["b"], m["a"], sorted(got[1])[:3]),
+                             {"kind": "twins-cli-order", "files": t["texts"], "toml": toml, "twin": m, "order_a": [m["a"], m["b"]], "pairs_a": sorted(got[0]),
+                              "order_b": [m["b"], m["a"]], "pairs_b": sorted(got[1]), "sim_ab": sab, "sim_ba": sba})
+
+
 def main(tier):
     ck = lib.Check("C08", tier)
     ck.prepare("C08.v")
     rng = ck.rng
     thorough = tier == "thorough"
-    n_proj = 110 if thorough else 12
+    n_proj = 100 if thorough else 7
     cfgs_per = 3 if thorough else 2
     stats = dict(projects=0, cli_runs=0, reported_pairs=0, verbatim_expected=0, verbatim_found=0, verbatim_missed_f19=0,
                  order_runs=0, model_cases=0, extract_cases=0, boundary_thresholds=0, relations={}, truncated=0, lsh_cli=0)
@@ -96,7 +303,7 @@ def main(tier):
         for it in items:
             stats["relations"][it["relation"]] = stats["relations"].get(it["relation"], 0) + 1
         for k in range(cfgs_per):
-            cfg = choose_cfg(rng, probes[pi])
+            cfg = choose_cfg(rng, probes[pi], max_frags=45 if thorough else 26)
             d = os.path.join(base, "p%d_%d" % (pi, k))
             for p, t in texts.items():
                 os.makedirs(os.path.dirname(os.path.join(d, p)), exist_ok=True)
@@ -162,6 +369,7 @@ def main(tier):
             r["res"] = None
             continue
         r["res"], r["res2"] = res, res2
+        lib.log("  run %d: %d fragments, %d cells, gate %s" % (ri, len(res["frags"]), len(res["table"]), res["uses_gate"]))
         req = r["req"]
         frags = res["frags"]
         cands = res["candidates"]
@@ -263,21 +471,7 @@ def main(tier):
             continue
 
         # assumptions on the similarity function, tested on the implementation (tie of the Section hypotheses)
-        for (i, j), c in table.items():
-            o = table.get((j, i))
-            if o and (o["sim"] != c["sim"] or o["dist"] != c["dist"] or o["gate"] != c["gate"]):
-                ck.violation("similarity is not symmetric: (%d,%d) sim %r dist %r gate %s vs (%d,%d) sim %r dist %r gate %s"
-                             % (i, j, c["sim"], c["dist"], c["gate"], j, i, o["sim"], o["dist"], o["gate"]),
-                             dict(replay, frag_a=frags[i], frag_b=frags[j]))
-                break
-            if not (0.0 <= c["sim"] <= 1.0):
-                ck.violation("similarity %r outside [0,1]" % c["sim"], dict(replay, frag_a=frags[i], frag_b=frags[j]))
-                break
-            if frags[i]["tree"] == frags[j]["tree"] and (c["sim"] != 1.0 or c["dist"] != 0.0 or not c["gate"] or
-                                                         frags[i]["size"] != frags[j]["size"] or frags[i]["feats"] != frags[j]["feats"]):
-                ck.violation("equal trees but similarity %r distance %r gate %s sizes %d/%d" % (c["sim"], c["dist"], c["gate"], frags[i]["size"], frags[j]["size"]),
-                             dict(replay, frag_a=frags[i], frag_b=frags[j]))
-                break
+        check_similarity_hypotheses(ck, res, replay)
 
         # verbatim copies are found
         can_expect = 1 in (req["clone_types"] or []) and req["min_similarity"] <= 1.0 <= req["max_similarity"] and len(pairs) < 10000
@@ -361,12 +555,20 @@ def main(tier):
             ck.samples.append({"files": sorted(r["texts"]), "request": {k: req[k] for k in req if k not in ("paths",)},
                                "pairs": [(loc_of(p["clone1"]), loc_of(p["clone2"]), p["similarity"], p["type"]) for p in pairs[:4]]})
 
+    twin_section(ck, rng, thorough, stats, base)
+    lib.log("twins %.1fs" % (time.time() - t0))
+
     ck.cov.update({
-        "evaluations": stats["cli_runs"] + stats["order_runs"],
+        "evaluations": stats["cli_runs"] + stats["order_runs"] + stats.get("twin_order_runs", 0) + stats.get("twin_cli_runs", 0),
         "distinct_nontrivial": stats["reported_pairs"],
         "rule": "generated projects (fragment library: functions/classes x verbatim+noise / renamed / edited / unrelated x same file, other file, "
                 "other directory) x configurations accepted by Validate (thresholds on observed similarities +-2^-40, min sizes at fragment sizes +-1, "
-                "service filter ranges, enabled type subsets, classifier gate on/off, LSH on/off) x file orders; distinct = reported pairs checked",
+                "service filter ranges, enabled type subsets, classifier gate on/off, LSH on/off) x file orders; plus related-construct twins: for every "
+                "entry of PythonCostModel.areRelatedNodeTypes (read from apted_cost.go: def/async def, for/async for, with/async with, BinOp/UnaryOp, "
+                "List/Tuple, ListComp/GeneratorExp, If/IfExp) and for same-category kinds a fragment and its twin differing only in those node types "
+                "(1-4 occurrences): sim/dist/gate in both orientations under the CLI's cost model and the python-boilerplate / ignore / default / "
+                "weighted models, detector and `pyscn analyze` in both file orders with the Type-2 edge or the reporting threshold ON the observed "
+                "similarity (+-2^-40) and with the built-in defaults; distinct = reported pairs checked",
         "input_distribution": stats,
         "disagreements_checked": len(ck.violations) + len(ck.broken_ties),
     })
